@@ -398,8 +398,14 @@ def run_property(pid, tier="quick", seed=0, only=None, jobs=None, no_replay=Fals
         "wall_s": round(wall, 2),
         "violations": len(status["violations"]),
     }
-    os.makedirs(os.path.join(HERE, "evidence"), exist_ok=True)
-    with open(os.path.join(HERE, "evidence", "%s.json" % pid), "w") as f:
+    # evidence/ describes /repo itself; runs against a scratch copy (PYVC_REPO: mutants, seeded or benign changes)
+    # write their record under out/ instead
+    from . import extract as _X
+    ev["coverage"]["repo_under_check"] = _X.REPO
+    evdir = os.path.join(HERE, "evidence") if os.path.realpath(_X.REPO) == "/repo" else \
+        os.path.join(HERE, "out", "evidence_scratch")
+    os.makedirs(evdir, exist_ok=True)
+    with open(os.path.join(evdir, "%s.json" % pid), "w") as f:
         json.dump(ev, f, indent=1, default=repr)
     print("%s %s: %d functions, %d obligations (%d VCs): %d discharged, %d refuted, %d undecided; %.1fs wall, "
           "%.1fs solver" % (pid, tier, len(keys), n_obl, vcs, n_dis, len(status["violations"]) + len(status["known"]),
